@@ -538,8 +538,10 @@ def _stable_place(x, stable):
 
 
 class Walker:
-    """Walks a body in evaluation order maintaining Known facts. Subclasses (or callbacks)
-    receive every call-like node with the facts holding just before it executes."""
+    """Walks a body in evaluation order maintaining Known facts and the symbolic value of every
+    local (immutable or mutable). Locals assigned on only some paths get a fresh version at the
+    join; fields and indexed places are handled by killing the facts that mention them.
+    `on_node(walker, node, known)` is called for every expression node after its operands."""
 
     def __init__(self, F, body, on_node=None, inline=None, assume=None):
         self.F = F
@@ -549,25 +551,54 @@ class Walker:
         self.in_unsafe_fn = body.unsafe
         self.closure_depth = 0
         self.debug_depth = 0
+        self.version = itertools.count(1)
+        self.loop_stack = []
         for p in body.params:
             if p.get("k") == "PBind" and (p.get("mut") or F.types[p["t"]].startswith("&mut")):
                 self.T.mut_locals.add(p["id"])
         self.start = Known(assume or [])
         self.stable = stable_fields(F)
 
-    def _pat_is_mut(self, p):
-        return p.get("k") == "PBind" and p.get("mut", False)
-
     def run(self):
         k = self.start.copy()
         self.walk(self.b.body, k)
 
-    # kill facts about a place and freeze substitutions mentioning it
+    # ---- versions of locals
+    def havoc_local(self, lid, name="v"):
+        self.T.env[lid] = ("var", name, "%s#%d" % (lid, next(self.version)))
+
+    def local_ids_assigned(self, n):
+        """ids of locals that are assigned, op-assigned, &mut-borrowed or used as a `&mut self` receiver in n."""
+        out = {}
+        F = self.F
+
+        def root_local(x):
+            while x.get("k") in ("Field", "Index", "Unary", "AddrOf"):
+                x = x["e"]
+            if x.get("k") == "Path" and x.get("res") == "local":
+                return x
+            return None
+        for x in walk(n):
+            k = x.get("k")
+            tgt = None
+            if k in ("Assign", "AssignOp"):
+                if x["l"].get("k") == "Path":
+                    tgt = root_local(x["l"])
+            elif k == "AddrOf" and x.get("mut"):
+                if x["e"].get("k") == "Path":
+                    tgt = root_local(x["e"])
+            elif k == "MethodCall" and F.tya(x["recv"]).startswith("&mut"):
+                if x["recv"].get("k") == "Path" and not F.ty(x["recv"]).startswith("&mut"):
+                    tgt = root_local(x["recv"])
+            if tgt is not None:
+                out[tgt["id"]] = tgt["name"]
+        return out
+
+    # ---- kills for fields / indexed places
     def kill_place(self, K, t):
         root = t
         while root[0] in ("field", "index"):
             root = root[1]
-
         stable = self.stable
 
         def pred(x):
@@ -583,7 +614,7 @@ class Walker:
         K.kill(pred)
         for lid, tt in list(self.T.env.items()):
             if mentions(tt, pred):
-                self.T.env[lid] = ("var", "frozen%s" % lid, lid)
+                self.havoc_local(lid, "frozen")
 
     def kill_root(self, K, t):
         """A &mut borrow of place t escapes: forget the contents of t (and of places overlapping it)
@@ -593,7 +624,6 @@ class Walker:
             root = root[1]
         if root[0] != "var":
             return
-
         stable = self.stable
 
         def pred(x):
@@ -609,15 +639,16 @@ class Walker:
         K.kill(pred)
         for lid, tt in list(self.T.env.items()):
             if mentions(tt, pred):
-                self.T.env[lid] = ("var", "frozen%s" % lid, lid)
+                self.havoc_local(lid, "frozen")
 
     def assigned_places(self, n):
-        """Places assigned (or &mut-borrowed / mutated through a &mut self call) anywhere inside n."""
+        """Field/index places assigned (or &mut-borrowed / mutated through a &mut self call) anywhere inside n."""
         out = []
         for x in walk(n):
             k = x.get("k")
             if k in ("Assign", "AssignOp"):
-                out.append(("place", self.T.term(x["l"])))
+                if x["l"].get("k") != "Path":
+                    out.append(("place", self.T.term(x["l"])))
             elif k == "AddrOf" and x.get("mut"):
                 out.append(("root", self.T.term(x["e"])))
             elif k == "MethodCall":
@@ -638,28 +669,22 @@ class Walker:
                 self.kill_place(K, t)
             else:
                 self.kill_root(K, t)
-                self.kill_place(K, t) if t[0] != "var" else None
-
-    def mentions_mutable(self, term):
-        ml = self.T.mut_locals
-        return mentions(term, lambda x: x[0] == "var" and x[2] in ml)
+                if t[0] != "var":
+                    self.kill_place(K, t)
 
     def bind_pat(self, p, term, K, mutable_ok=True):
         k = p.get("k")
         if k == "PBind":
-            is_mut = p.get("mut") or self.F.types[p["t"]].startswith("&mut")
-            if is_mut:
+            if p.get("mut") or self.F.types[p["t"]].startswith("&mut"):
                 self.T.mut_locals.add(p["id"])
             if term is None:
-                return
-            if p.get("mut") or self.mentions_mutable(term):
-                # keep the local opaque; remember its (current) value as an equality fact
+                self.T.env.pop(p["id"], None)
+            elif not p.get("mut") and self.F.types[p["t"]] in INT_TYPES and self._killable(term):
+                # an integer snapshot of mutable state: keep the local opaque and remember the
+                # equality, so that facts about the local survive later mutation of the state
                 v = ("var", p["name"], p["id"])
-                if not p.get("mut") and self.F.types[p["t"]].startswith("&"):
-                    # a reference to a place: substitute (aliases must be followed), facts die with the place
-                    self.T.env[p["id"]] = term
-                else:
-                    K.add(cmp_atoms("==", v, term))
+                self.T.env[p["id"]] = v
+                K.add(cmp_atoms("==", v, term))
             else:
                 self.T.env[p["id"]] = term
         elif k == "PTuple" and term is not None and term[0] == "tup" and len(term) - 1 == len(p["ps"]):
@@ -667,8 +692,24 @@ class Walker:
                 self.bind_pat(q, t, K)
         elif k == "PRef":
             self.bind_pat(p["p"], term, K)
-        # other patterns: bindings stay opaque vars
+        else:
+            self.bind_pat_opaque(p)
 
+    def _killable(self, term):
+        ml = self.T.mut_locals
+        stable = self.stable
+
+        def pred(x):
+            if x[0] in ("field", "index", "call", "isempty") and not _stable_place(x, stable):
+                return mentions(x, lambda y: y[0] == "var" and str(y[2]).split("#")[0] in ml)
+            return False
+        return mentions(term, pred)
+
+    def bind_pat_opaque(self, p):
+        for name, lid in pat_bindings(p):
+            self.T.env.pop(lid, None)
+
+    # ---- the walk
     def walk(self, n, K):
         """Returns True if n certainly diverges. K is updated in place to the facts after n."""
         F = self.F
@@ -676,22 +717,23 @@ class Walker:
         if k == "Block":
             for s in n["stmts"]:
                 if self.walk(s, K):
-                    # rest unreachable; still visit for call sites with empty knowledge? skip
                     return True
             if "expr" in n:
                 return self.walk(n["expr"], K)
             return False
         if k == "LetStmt":
-            div = False
             if "init" in n:
-                div = self.walk(n["init"], K)
-                if div:
+                if self.walk(n["init"], K):
                     return True
                 term = self.T.term(n["init"])
                 if "els" in n:
+                    saved = dict(self.T.env)
                     self.walk(n["els"], K.copy())
+                    self.T.env = saved
                     term = None
                 self.bind_pat(n["pat"], term, K)
+            else:
+                self.bind_pat(n["pat"], None, K)
             return False
         if k == "If":
             return self.walk_if(n, K)
@@ -700,24 +742,37 @@ class Walker:
         if k == "Match":
             return self.walk_match(n, K)
         if k == "Closure":
-            # facts at creation are assumed at call time (closures here are called immediately or by iterators)
             K2 = K.copy()
+            saved = dict(self.T.env)
+            for p in n.get("params", []):
+                self.bind_pat_opaque(p)
             self.closure_depth += 1
             self.walk(n["body"], K2)
             self.closure_depth -= 1
+            assigned = self.local_ids_assigned(n["body"])
+            self.T.env = saved
+            for lid, nm in assigned.items():
+                if lid in saved or True:
+                    self.havoc_local(lid, nm)
             return False
         if k in ("Assign", "AssignOp"):
             if self.walk(n["r"], K):
                 return True
             self.visit_subexprs(n["l"], K)
-            lt = self.T.term(n["l"])
+            l = n["l"]
             rt = self.T.term(n["r"])
             if k == "AssignOp":
-                # x += c keeps order facts shifted; we only keep monotone info: forget
-                old_facts = None
                 self.notify(n, K)
+            if l.get("k") == "Path" and l.get("res") == "local":
+                lid = l["id"]
+                if k == "Assign":
+                    self.T.env[lid] = rt
+                else:
+                    old = self.T.term(l)
+                    self.T.env[lid] = mk_op(n["op"].rstrip("="), old, rt)
+                return False
+            lt = self.T.term(l)
             if lt[0] in ("var", "field", "index"):
-                # value after assignment
                 self.kill_place(K, lt)
                 if k == "Assign" and not mentions(rt, lambda x: x == lt):
                     K.add(cmp_atoms("==", lt, rt))
@@ -725,11 +780,11 @@ class Walker:
         if k in ("Ret", "Break", "Continue"):
             if "e" in n:
                 self.walk(n["e"], K)
+            self.notify(n, K)
             return True
         if k == "Let":
             self.walk(n["init"], K)
             return False
-        # generic expression: visit children left-to-right, then the node itself
         if k == "Binary" and n["op"] in ("&&", "||"):
             if self.walk(n["l"], K):
                 return True
@@ -739,18 +794,13 @@ class Walker:
             return False
         for c in kids(n):
             if self.walk(c, K):
-                if k in ("Call", "MethodCall") or True:
-                    return True
+                return True
         self.notify(n, K)
         # effects of calls taking &mut
         if k == "MethodCall":
             ta = F.tya(n["recv"])
             if ta.startswith("&mut"):
-                rt = self.T.term(n["recv"])
-                if rt[0] in ("var", "field", "index"):
-                    self.kill_root(K, rt)
-                    if rt[0] != "var":
-                        self.kill_place(K, rt)
+                self._escape(n["recv"], K)
             for a in n["args"]:
                 self._mut_arg(a, K)
         elif k == "Call":
@@ -760,16 +810,28 @@ class Walker:
             return True
         return False
 
+    def _escape(self, e, K):
+        """The place denoted by expression e is mutably borrowed by a call."""
+        x = e
+        while x.get("k") in ("AddrOf",) or (x.get("k") == "Unary" and x.get("op") == "*"):
+            x = x["e"]
+        if x.get("k") == "Path" and x.get("res") == "local" and not self.F.ty(x).startswith("&mut") and not self.F.ty(x).startswith("&"):
+            # an owned local mutated in place: new version, facts about the old value stay with the old term
+            self.havoc_local(x["id"], x["name"])
+            return
+        t = self.T.term(x)
+        if t[0] in ("var", "field", "index"):
+            self.kill_root(K, t)
+            if t[0] != "var":
+                self.kill_place(K, t)
+
     def _mut_arg(self, a, K):
         F = self.F
         if a.get("k") == "AddrOf" and a.get("mut"):
-            t = self.T.term(a["e"])
-            if t[0] in ("var", "field", "index"):
-                self.kill_root(K, t)
-                self.kill_place(K, t)
-        elif F.ty(a).startswith("&mut") and a.get("k") == "Path":
+            self._escape(a["e"], K)
+        elif F.ty(a).startswith("&mut") and a.get("k") in ("Path", "Field"):
             t = self.T.term(a)
-            if t[0] == "var":
+            if t[0] in ("var", "field", "index"):
                 self.kill_root(K, t)
 
     def visit_subexprs(self, n, K):
@@ -780,67 +842,107 @@ class Walker:
         if self.on_node is not None:
             self.on_node(self, n, K)
 
+    def _branch(self, node, K, pre=None):
+        """Walk `node` on a copy of the environment; returns (K_after, diverged, env_after)."""
+        saved = self.T.env
+        self.T.env = dict(saved)
+        Kb = K.copy()
+        if pre:
+            pre(Kb)
+        d = self.walk(node, Kb) if node is not None else False
+        env_after = self.T.env
+        self.T.env = saved
+        return Kb, d, env_after
+
+    def _join_envs(self, base, results):
+        """results: list of (K, diverged, env). Sets self.T.env / returns (atoms, all_diverged)."""
+        live = [(k, e) for k, d, e in results if not d]
+        if not live:
+            return None
+        if len(live) == 1:
+            self.T.env = live[0][1]
+            return live[0][0].atoms
+        env = {}
+        keys = set()
+        for _, e in live:
+            keys |= set(e.keys())
+        for lid in keys:
+            vals = [e.get(lid) for _, e in live]
+            if all(v == vals[0] for v in vals) and vals[0] is not None:
+                env[lid] = vals[0]
+            else:
+                nm = "v"
+                for v in vals:
+                    if v is not None and v[0] == "var":
+                        nm = v[1]
+                env[lid] = ("var", nm, "%s#%d" % (lid, next(self.version)))
+        self.T.env = env
+        atoms = set(live[0][0].atoms)
+        for k, _ in live[1:]:
+            atoms &= k.atoms
+        return atoms
+
     def walk_if(self, n, K):
         F = self.F
         c = n["c"]
-        # `debug_assert!`: if cfg!(debug_assertions) {...}: body is absent in release builds
         if is_debug_only(F, n) or (c.get("k") == "Lit" and "cfg" in F.mac(c)):
-            K2 = K.copy()
             self.debug_depth += 1
-            self.walk(n["th"], K2)
+            self._branch(n["th"], K)
             self.debug_depth -= 1
             return False
         if c.get("k") == "Let":
-            self.walk(c["init"], K)
-            Kt = K.copy()
-            self.bind_pat_opaque(c["pat"])
-            dt = self.walk(n["th"], Kt)
-            Ke = K.copy()
-            de = self.walk(n["el"], Ke) if "el" in n else False
-            return self._join(K, Kt, dt, Ke, de)
-        if self.walk(c, K):
-            return True
-        Kt = K.copy()
-        Kt.add(cond_atoms(self.T, c, True))
-        dt = self.walk(n["th"], Kt)
-        Ke = K.copy()
-        Ke.add(cond_atoms(self.T, c, False))
-        de = self.walk(n["el"], Ke) if "el" in n else False
-        return self._join(K, Kt, dt, Ke, de)
+            if self.walk(c["init"], K):
+                return True
+            it = self.T.term(c["init"])
 
-    def bind_pat_opaque(self, p):
-        for name, lid in pat_bindings(p):
-            self.T.env.pop(lid, None)
-
-    def _join(self, K, Kt, dt, Ke, de):
-        if dt and de:
-            return True
-        if dt:
-            K.atoms = Ke.atoms
-        elif de:
-            K.atoms = Kt.atoms
+            def pre_t(Kb):
+                self.bind_pat_opaque(c["pat"])
+                self.let_facts(c["pat"], it, Kb)
+            rt = self._branch(n["th"], K, pre_t)
+            re_ = self._branch(n.get("el"), K)
         else:
-            K.atoms = Kt.atoms & Ke.atoms
+            if self.walk(c, K):
+                return True
+            rt = self._branch(n["th"], K, lambda Kb: Kb.add(cond_atoms(self.T, c, True)))
+            re_ = self._branch(n.get("el"), K, lambda Kb: Kb.add(cond_atoms(self.T, c, False)))
+        atoms = self._join_envs(None, [rt, re_])
+        if atoms is None:
+            return True
+        K.atoms = atoms
         return False
+
+    def let_facts(self, pat, term, K):
+        pass
 
     def walk_loop(self, n, K):
         F = self.F
         body = n["body"]
+        # havoc locals assigned in the body; kill facts about places assigned in the body
+        assigned = self.local_ids_assigned(body)
+        for lid, nm in assigned.items():
+            if lid in self.T.env:
+                self.havoc_local(lid, nm)
         kills = self.assigned_places(body)
         self.apply_kills(K, kills)
-        # locals bound inside the body keep their own ids; nothing to do
-        Kb = K.copy()
-        self.walk(body, Kb)
-        # after the loop: facts invariant at the head (K), plus the negated `while` condition
-        # when the only exit is the desugared `else { break }`.
+        head_env = dict(self.T.env)
+        Kb, d, _ = self._branch(body, K)
+        self.T.env = head_env
+        # after the loop: facts invariant at the head, plus the negated `while` condition when the
+        # only exit is the desugared `else { break }`.
+        nbreaks = sum(1 for _ in self._own_breaks(body))
         if n.get("src") == "While":
             st = body.get("expr") or (body["stmts"][-1] if body["stmts"] else None)
-            if st is not None and st.get("k") == "If" and st["c"].get("k") != "Let":
-                nbreaks = sum(1 for x in self._own_breaks(body))
-                if nbreaks == 1:
-                    K.add(cond_atoms(self.T, st["c"], False))
-        # a `loop` without any break never terminates normally
-        if n.get("src") == "Loop" and not any(True for _ in self._own_breaks(body)):
+            if st is not None and st.get("k") == "If" and st["c"].get("k") != "Let" and nbreaks == 1:
+                K.add(cond_atoms(self.T, st["c"], False))
+            else:
+                for lid, nm in assigned.items():
+                    if lid in self.T.env:
+                        self.havoc_local(lid, nm)
+        else:
+            for lid, nm in assigned.items():
+                if lid in self.T.env:
+                    self.havoc_local(lid, nm)
+        if n.get("src") == "Loop" and nbreaks == 0:
             return True
         return False
 
@@ -869,20 +971,16 @@ class Walker:
         st = self.T.term(scrut)
         results = []
         for a in n["arms"]:
-            Ka = K.copy()
-            self.bind_pat_opaque(a["pat"])
-            self.arm_facts(a["pat"], st, scrut, Ka)
-            if "guard" in a:
-                self.walk(a["guard"], Ka)
-                Ka.add(cond_atoms(self.T, a["guard"], True))
-            d = self.walk(a["body"], Ka)
-            results.append((Ka, d))
-        live = [ka for ka, d in results if not d]
-        if not live:
+            def pre(Kb, a=a):
+                self.bind_pat_opaque(a["pat"])
+                self.arm_facts(a["pat"], st, scrut, Kb)
+                if "guard" in a:
+                    self.walk(a["guard"], Kb)
+                    Kb.add(cond_atoms(self.T, a["guard"], True))
+            results.append(self._branch(a["body"], K, pre))
+        atoms = self._join_envs(None, results)
+        if atoms is None:
             return len(results) > 0
-        atoms = set(live[0].atoms)
-        for ka in live[1:]:
-            atoms &= ka.atoms
         K.atoms = atoms
         return False
 
@@ -916,34 +1014,38 @@ class Walker:
             return self.walk(arm["body"], K)
         lb = loop["body"]
         inner = lb.get("expr") or (lb["stmts"][0] if lb["stmts"] else None)
+        assigned = self.local_ids_assigned(lb)
+        for lid, nm in assigned.items():
+            if lid in self.T.env:
+                self.havoc_local(lid, nm)
         kills = self.assigned_places(lb)
         self.apply_kills(K, kills)
-        if inner is None or inner.get("k") != "Match":
-            Kb = K.copy()
-            self.walk(lb, Kb)
-            return False
+        head_env = dict(self.T.env)
         some_arm = None
         pat = None
-        for a in inner["arms"]:
-            if a["pat"].get("k") == "PTupleStruct" and a["pat"].get("ps"):
-                some_arm = a
-                pat = a["pat"]["ps"][0]
-            elif a["pat"].get("k") == "PStruct" and a["pat"].get("fields"):
-                some_arm = a
-                pat = a["pat"]["fields"][0]["p"]
+        if inner is not None and inner.get("k") == "Match":
+            for a in inner["arms"]:
+                if a["pat"].get("k") == "PTupleStruct" and a["pat"].get("ps"):
+                    some_arm = a
+                    pat = a["pat"]["ps"][0]
+                elif a["pat"].get("k") == "PStruct" and a["pat"].get("fields"):
+                    some_arm = a
+                    pat = a["pat"]["fields"][0]["p"]
         if some_arm is None:
-            Kb = K.copy()
-            self.walk(lb, Kb)
-            return False
-        Kb = K.copy()
-        if pat is not None:
-            self.bind_pat_opaque(pat)
-            self.for_facts(pat, it, Kb)
-        self.walk(some_arm["body"], Kb)
+            self._branch(lb, K)
+        else:
+            def pre(Kb):
+                self.bind_pat_opaque(pat)
+                self.for_facts(pat, it, Kb)
+            self._branch(some_arm["body"], K, pre)
+        self.T.env = head_env
+        for lid, nm in assigned.items():
+            if lid in self.T.env:
+                self.havoc_local(lid, nm)
         return False
 
     def for_facts(self, pat, it, K):
-        """Range facts for `for i in a..b`, `for (i, x) in xs.iter().enumerate()`, `.take(k)`."""
+        """Range facts for `for i in a..b`, `for (i, x) in xs.iter().enumerate()`."""
         F = self.F
         T = self.T
         rng = range_of(F, it)
@@ -955,7 +1057,6 @@ class Walker:
             if hi is not None:
                 K.add(cmp_atoms("<=" if incl else "<", v, T.term(hi)))
             return
-        # enumerate over a slice-like: index < len(receiver)
         if pat.get("k") == "PTuple" and len(pat["ps"]) == 2 and pat["ps"][0].get("k") == "PBind":
             chain = method_chain(F, it)
             names = [c[0] for c in chain]
@@ -963,8 +1064,7 @@ class Walker:
                 idx = pat["ps"][0]
                 v = ("var", idx["name"], idx["id"])
                 base = chain[-1][1] if chain else None
-                # xs.iter().enumerate(): i < len(xs)
-                pre = names[:names.index("enumerate")]
+                pre = names[names.index("enumerate") + 1:]
                 if base is not None and all(x in ("iter", "iter_mut", "copied", "cloned", "as_ref", "into_iter", "as_mut") for x in pre):
                     K.add(cmp_atoms("<", v, ("call", "len", (T.term(base),))))
 
